@@ -1,4 +1,5 @@
 """Explorers A (choice-point DFS with deviation bound) and B (explicit-state BFS)."""
+from . import simenv
 from .simenv import HarnessError
 
 
@@ -57,6 +58,9 @@ def explore_choices(run, max_dev, on_exec, max_exec=None, fixed=None):
         if max_exec is not None and st["executions"] >= max_exec:
             st["capped"] = True
             break
+        if st["executions"] % 64 == 0 and simenv.expired():
+            st["capped"] = "deadline"
+            break
         devs = sum(1 for k in prefix if k)
         if devs + 1 > max_dev:
             continue
@@ -97,6 +101,9 @@ def bfs(make, apply, events_of, canon, max_depth=None, max_states=None, on_trans
             break
         nxt = []
         for hist in frontier:
+            if simenv.expired():
+                res["capped"] = "deadline"
+                break
             if static_events is not None:
                 evs = static_events
             else:
@@ -177,8 +184,7 @@ def bfs_parallel(make, apply, events_of, canon, jobs=16, max_depth=None, max_sta
     frontier = [list(root)]
     res = {"states": 1, "transitions": 0, "depth": 0, "closed": False, "capped": False, "verdicts": []}
     depth = 0
-    ctx = multiprocessing.get_context("fork")
-    with ctx.Pool(jobs) as pool:
+    with WatchedPool(jobs) as pool:
         while frontier:
             if max_depth is not None and depth >= max_depth:
                 break
@@ -200,6 +206,9 @@ def bfs_parallel(make, apply, events_of, canon, jobs=16, max_depth=None, max_sta
             if max_states is not None and len(seen) >= max_states:
                 res["capped"] = True
                 break
+            if simenv.expired():
+                res["capped"] = "deadline"
+                break
             frontier = nxt
             if nxt:
                 depth += 1
@@ -210,6 +219,77 @@ def bfs_parallel(make, apply, events_of, canon, jobs=16, max_depth=None, max_sta
     return res
 
 
+class WorkerDied:
+    def __init__(self, code):
+        self.code = code
+
+
+def _fm_child(fn, arg, w):
+    try:
+        w.send(fn(arg))
+    finally:
+        w.close()
+
+
+def forkmap(fn, args, jobs=16, strict=True):
+    """Ordered map over ``args``, one forked process per argument, at most ``jobs`` at a time.  Unlike
+    multiprocessing.Pool a child that dies (a changed tree can crash or exhaust the interpreter) does not hang the
+    run: with ``strict`` it is a HarnessError, otherwise its slot holds a WorkerDied marker."""
+    import multiprocessing
+    from multiprocessing.connection import wait
+    ctx = multiprocessing.get_context("fork")
+    out = [None] * len(args)
+    pending = list(range(len(args)))
+    running = {}
+    while pending or running:
+        while pending and len(running) < jobs:
+            i = pending.pop(0)
+            r, w = ctx.Pipe(duplex=False)
+            p = ctx.Process(target=_fm_child, args=(fn, args[i], w))
+            p.start()
+            w.close()
+            running[r] = (p, i)
+        for r in wait(list(running), timeout=5.0):
+            p, i = running.pop(r)
+            try:
+                out[i] = r.recv()
+            except (EOFError, OSError):
+                p.join()
+                out[i] = WorkerDied(p.exitcode)
+            r.close()
+            p.join()
+    if strict:
+        dead = [o for o in out if isinstance(o, WorkerDied)]
+        if dead:
+            raise HarnessError(f"{len(dead)} worker process(es) died (exit code {dead[0].code})")
+    return out
+
+
+class WatchedPool:
+    """multiprocessing fork pool whose map() raises HarnessError instead of hanging when a worker process dies."""
+
+    def __init__(self, jobs):
+        import multiprocessing
+        self.pool = multiprocessing.get_context("fork").Pool(jobs)
+        self.pids = sorted(p.pid for p in self.pool._pool)
+
+    def map(self, fn, chunks):
+        ar = self.pool.map_async(fn, chunks)
+        while not ar.ready():
+            ar.wait(0.5)
+            if sorted(p.pid for p in self.pool._pool) != self.pids or any(p.exitcode is not None for p in self.pool._pool):
+                self.pool.terminate()
+                raise HarnessError("a worker process died (the tree under test crashed or exhausted the interpreter)")
+        return ar.get()
+
+    def __enter__(self):
+        return self
+
+    def __exit__(self, *a):
+        self.pool.terminate()
+        self.pool.join()
+
+
 def parallel_map(fn, items, jobs=16):
     """fork-pool map for run_main parts (fn must be a module-level function)."""
     import multiprocessing
@@ -218,8 +298,8 @@ def parallel_map(fn, items, jobs=16):
     ctx = multiprocessing.get_context("fork")
     n = max(1, min(len(items), jobs * 4))
     chunks = [items[i::n] for i in range(n)]
-    with ctx.Pool(jobs) as pool:
-        out = []
+    out = []
+    with WatchedPool(jobs) as pool:
         for part in pool.map(fn, chunks):
             out.extend(part)
     return out
